@@ -958,11 +958,12 @@ def k12(ctx):
     # then aborts for an equality that holds): theta1 starts from x.l -> goal.l, theta2 from y.r -> goal.r, each is completed
     # through the middle terms by the other (x.r^-1 ; y.l ; theta2  and  y.l^-1 ; x.r ; theta1), slots of a premise that remain
     # unnamed get fresh names, and theta2 is completed once more after theta1 was filled
+    b = mir.inline_view(crate, b, keep=("compose_partial", "try_union", "apply_slotmap", "slots"))       # (a `fill missing with fresh` helper is looked through)
     inits = [(_nrm(b, b.role_of_operand(c.args[0])), _nrm(b, b.role_of_operand(c.args[1]))) for c in b.calls if c.callee and c.callee.name == "compose_partial" and not b.blocks[c.bb]["cleanup"]]
     ctx.check(("inverse(self.0.l.m)", "p2.l.m") in inits and ("inverse(self.1.r.m)", "p2.r.m") in inits, "transitivity-renaming-seeds", "theta1 = x.l.m^-1 ; goal.l.m and theta2 = y.r.m^-1 ; goal.r.m (partial compositions)",
               "TransitivityProof::check seeds its two renamings with %s: they must be compose_partial(inverse(x.l.m), goal.l.m) and compose_partial(inverse(y.r.m), goal.r.m) — partial, because a premise may mention slots the goal does not" % inits, where_of(b))
     chains = []
-    for cl in b.closures:
+    for cl in [b] + list(b.closures):
         for c in cl.calls:
             if c.callee and c.callee.name == "try_union" and not cl.blocks[c.bb]["cleanup"]:
                 chains.append(role_str(strip_role(cl.role_of_operand(c.args[1])), 12))
